@@ -101,6 +101,8 @@ type FnTr struct {
 	refute   bool        // counterexample search: bounded unrolling, inlining, no quantifiers
 	unrollK  int
 	excEdges []excEdge   // refute mode: precise exceptional edges
+	excLocks  []excLock    // proof mode: lock state at every panic point caught by a recovering defer
+	recDefers []*ssa.Defer // the defer statements of the function whose closure calls recover()
 	inlining map[*ssa.Function]bool
 }
 
@@ -643,15 +645,61 @@ func (tr *FnTr) check(kind string, cond *Term, p token.Pos) {
 	tr.panicEdge(kind, cond, p)
 }
 
+// recoverCovers reports whether a panic at the current instruction of the top-level function
+// is caught by one of its recovering defers: the defer statement must already have been
+// executed, i.e. it precedes the instruction in the same block or sits in a dominating block.
+func (tr *FnTr) recoverCovers() bool {
+	top := tr.top
+	if !top.recovering {
+		return false
+	}
+	in := top.curInstr
+	if in == nil || in.Block() == nil {
+		return true
+	}
+	b := in.Block()
+	idx := func(x ssa.Instruction) int {
+		for i, y := range x.Block().Instrs {
+			if y == x {
+				return i
+			}
+		}
+		return -1
+	}
+	for _, d := range top.recDefers {
+		db := d.Block()
+		if db == b {
+			if idx(d) < idx(in) {
+				return true
+			}
+		} else if db.Dominates(b) {
+			return true
+		}
+	}
+	return false
+}
+
+type excLock struct {
+	Reach, Locks *Term
+}
+
 // panicEdge: the current instruction panics unless ok holds.
 func (tr *FnTr) panicEdge(kind string, ok *Term, p token.Pos) {
 	top := tr.top
-	if top.refute && top.recovering && !tr.excMode {
+	covered := tr.recoverCovers()
+	if top.refute && covered && !tr.excMode {
 		if r := And(tr.st.Reach, Not(ok)); !r.IsFalse() {
 			top.excEdges = append(top.excEdges, excEdge{St: State{Reach: r, Mem: tr.st.Mem, Alloc: tr.st.Alloc, Locks: tr.st.Locks, Ghost: tr.st.Ghost}})
 		}
 	}
-	if top.recovering || tr.excMode || (top.ct != nil && top.ct.NoPanicCheck) {
+	if !top.refute && covered && !tr.excMode {
+		if r := And(tr.st.Reach, Not(ok)); !r.IsFalse() {
+			top.excLocks = append(top.excLocks, excLock{Reach: r, Locks: tr.st.Locks})
+		}
+	}
+	if kind == "nil" && top.ct != nil && top.ct.NoNilCheck && !covered && !tr.excMode {
+		tr.vc.Assumed = appendUniq(tr.vc.Assumed, "nil dereferences are not checked in "+top.ct.Name+" (pointers into node-internal structures are assumed valid)")
+	} else if covered || tr.excMode || (top.ct != nil && top.ct.NoPanicCheck) {
 		// control transfers to the deferred recover: the exceptional exit is checked
 		// separately against a havocked state. Nothing to prove here.
 	} else {
